@@ -281,7 +281,8 @@ impl Iterator for RenkoOutput {
 
 	#[inline]
 	fn nth(&mut self, n: usize) -> Option<Self::Item> {
-		self.pos += n;
+		// never beyond the end: `next` only stops at `pos == len`
+		self.pos = self.pos.saturating_add(n).min(self.len);
 		self.next()
 	}
 
